@@ -67,6 +67,7 @@ TraceSummary == /\ Consume("Summary")
                                                  ELSE E.recorded[k] >= E.served[k] + E.pending[k] + E.late[k]
                 /\ SumF(E.late, Keys) <= E.recorders * E.dumps
                 /\ E.maxKeys <= E.maxSize
+                /\ E.dupTaken = 0            \* every buffer is taken out by exactly one dump
                 /\ UNCHANGED vars
 
 TraceNext == \/ TraceReset \/ TraceRecord \/ TraceRecLoad \/ TraceRecNoLoad \/ TraceRecAdd
